@@ -76,6 +76,11 @@ def generate(tier, seed):
     for sh in shells:
         for t in tails:
             texts.append(sh % t)
+    import string as _st
+    for ch in _st.ascii_letters + _st.digits + "\\\"'`,@#.;()[]{} \n\t-+*/<>=!?$%^&|~_:":
+        for tail in ['"', '', 'g"', '4"', '41"', '414"', ' "', '\\"', 'é"', '{41}"', '\n"']:
+            texts.append('"\\' + ch + tail)
+            texts.append('(a "x\\' + ch + tail + " b)")
     plists = ["(&rest)", "(&optional)", "(&optional &rest)", "(&rest &optional)", "(a &rest)", "(a &optional)", "(&rest &rest)", "(&rest a b)", "(&optional &optional a)", "(&rest a &rest b)",
               "(a &optional b &rest)", "(&rest . a)", "(a . &rest)", "(&rest (a))", "(&rest 1)", "(&optional nil)", "(nil)", "(t)", "(:k)", "(a a)", "((a))", "(\"s\")", "(1)", "(&rest a)", "(&optional a)",
               "nil", "()", "a", "5", "(a &rest b)", "(&foo a)", "(&optional . a)"]
